@@ -113,6 +113,7 @@ def case_st(draw):
     case = draw(gen.retry_case(PROFILE))
     spec = {"threshold": draw(st.sampled_from([1, 2, 3])), "window": 640, "recovery": draw(st.sampled_from([16, 64])), "trip_on": ["TRANSIENT", "SERVER_ERROR", "UNKNOWN"]}
     spec["pre"] = draw(st.sampled_from(["closed", "half_open_ready", "half_open_ready", "probe_released"]))
+    spec["falsy"] = draw(st.sampled_from([False, False, True]))  # a breaker subclass may have a truth value
     case["cfg"]["breaker"] = spec
     case["entry"] = draw(st.sampled_from(ENTRIES))
     for c in case["calls"]:
